@@ -295,7 +295,19 @@ def run(ctx):
     if not fails:
         cliv = C.build_cli("plain")
         nv = 14 if ctx.quick else 60
-        sub = [j for j in jobs if j["rc"] == 0][:nv] + [j for j in jobs if j["rc"] > 0 and j["otag"] not in ("bad-input-path",)][:nv // 2]
+        gen_ = [j for j in jobs if not j["tag"].startswith(("capacity-", "line-table-"))]       # the special streams must not crowd out the generic pool
+        sub = [j for j in gen_ if j["rc"] == 0][:nv] + [j for j in gen_ if j["rc"] > 0 and j["otag"] not in ("bad-input-path",)][:nv // 2]
+        # sequences of 1024+ residues (growth steps of the per-sequence buffers: 512, 1024, 1536, ...) are always among the memcheck runs, in all
+        # three input formats
+        for kv_, L_ in enumerate([1024, 1030, 1536, 2100] if ctx.quick else [1023, 1024, 1025, 1535, 1536, 1537, 2048, 2100, 4096]):
+            inp_ = os.path.join(sc, "c05_vg_%d.in" % kv_)
+            recs_ = [("v%d" % x, gen.rand_seq(rng, "ACGT", L_ if x == 0 else rng.randint(40, 90))) for x in range(3)]
+            rows_ = c04.gap_rows(rng, recs_, 0.01)
+            txt_ = [gen.fasta_text(recs_), c04.render_fasta(rng, rows_), c04.render_clustal(rng, rows_), c04.render_msf(rng, rows_)][kv_ % 4]
+            open(inp_, "w").write(txt_)
+            out_ = os.path.join(sc, "c05_vg_%d.out" % kv_)
+            sub.append(dict(i=10 ** 6 + kv_, args=["-i", inp_, "-o", out_, "-f", ["fasta", "msf", "clu"][kv_ % 3], "-n", "1"], tag="long-sequence-%d" % L_, otag="plain",
+                            fmt=None, out=out_, inp=inp_, rc=0))
 
         def vg(j):
             p = C.sh(["valgrind", "-q", "--error-exitcode=77", "--track-origins=no", cliv] + j["args"] + ["-q"], timeout=600, env={"OMP_NUM_THREADS": "1"})
